@@ -156,3 +156,22 @@ Check (C06_three_sources_agree_on_text :
   | PErr (XErr (EIo a)), PErr (XErr (EIo b)) => a = b
   | _, _ => False
   end).
+
+Check (C06_io_error_or_determined :
+  forall ro alpha fast std_parse (pre post cont : list event) (e : N),
+  from_trait ro alpha fast std_parse SrcIo (pre ++ EFail e :: post) = PErr (XErr (EIo e)) \/
+  from_trait ro alpha fast std_parse SrcIo (pre ++ cont) = from_trait ro alpha fast std_parse SrcIo (pre ++ EFail e :: post)).
+
+Check (C06_io_error_or_determined_datum :
+  forall ro alpha fast std_parse (pre post cont : list event) (e : N),
+  datum_from_trait ro alpha fast std_parse SrcIo (pre ++ EFail e :: post) = PErr (XErr (EIo e)) \/
+  datum_from_trait ro alpha fast std_parse SrcIo (pre ++ cont) = datum_from_trait ro alpha fast std_parse SrcIo (pre ++ EFail e :: post)).
+
+Check (C06_io_error_or_determined_nonvacuous :
+  let run inp := from_trait default_ro (fun _ => true) true dec_to_f64 SrcIo inp in
+  run (bytes_events (s2b "(a ") ++ [EFail 5%N]) = PErr (XErr (EIo 5%N)) /\
+  run (bytes_events (s2b "12") ++ [EFail 6%N]) = PErr (XErr (EIo 6%N)) /\
+  run (bytes_events (s2b "(a) ") ++ [EFail 7%N; EByte 41%N]) = PErr (XErr (EIo 7%N)) /\
+  (exists l c, run (bytes_events (s2b "(a #z ") ++ [EFail 8%N]) = PErr (XErr (ESyntax ExpectedSomeIdent l c)) /\
+               run (bytes_events (s2b "(a #z ") ++ bytes_events (s2b "b)")) = PErr (XErr (ESyntax ExpectedSomeIdent l c)) /\
+               run (bytes_events (s2b "(a #z ")) = PErr (XErr (ESyntax ExpectedSomeIdent l c)))).
